@@ -155,10 +155,67 @@ def _simple_helper(h):
             return 'generator / global'
         if n is not h and isinstance(n, (ast.FunctionDef, ast.AsyncFunctionDef, ast.Lambda, ast.ClassDef)):
             return 'nested scope'
-    rets = [n for st in body for n in ast.walk(st) if isinstance(n, ast.Return)]
-    if any(r is not body[-1] for r in rets):
-        return 'early return'
+    if _tailify(body, None, probe=True) is None:
+        return 'return inside a loop / try / with'
     return None
+
+
+def _has_return(node):
+    return any(isinstance(n, ast.Return) for n in ast.walk(node))
+
+
+def _tailify(stmts, target, probe=False):
+    """Rewrite a helper body so that it has no `return`: a `return e` in tail position of the if/else nesting becomes
+    `target = e` (or is dropped), and the statements that follow an `if` one of whose arms returns move into the arms
+    that fall through.  None when a `return` sits inside a loop / try / with (not expressible without a jump)."""
+    import copy
+
+    out = []
+    for i, st in enumerate(stmts):
+        rest = stmts[i + 1:]
+        if isinstance(st, ast.Return):
+            if st.value is not None:
+                if target is not None:
+                    asg = ast.Assign(targets=[copy.deepcopy(t) for t in target], value=st.value, type_comment=None)
+                    out.append(ast.copy_location(asg, st))
+                elif not isinstance(st.value, (ast.Name, ast.Constant)):
+                    out.append(ast.copy_location(ast.Expr(value=st.value), st))
+            elif target is not None:
+                asg = ast.Assign(targets=[copy.deepcopy(t) for t in target], value=ast.Constant(value=None), type_comment=None)
+                out.append(ast.copy_location(asg, st))
+            if not out:
+                out.append(ast.copy_location(ast.Pass(), st))
+            return out
+        if isinstance(st, ast.If) and _has_return(st):
+            body = _tailify(list(st.body) + ([] if probe else [copy.deepcopy(r) for r in rest]) if _falls_through(st.body) else list(st.body), target, probe)
+            orelse = _tailify(list(st.orelse) + ([] if probe else [copy.deepcopy(r) for r in rest]) if _falls_through(st.orelse) else list(st.orelse), target, probe)
+            if body is None or orelse is None:
+                return None
+            if probe and _tailify(rest, target, probe) is None:
+                return None
+            new = ast.If(test=st.test, body=body or [ast.copy_location(ast.Pass(), st)], orelse=orelse)
+            out.append(ast.copy_location(new, st))
+            return out
+        if _has_return(st):
+            return None
+        out.append(st)
+    if target is not None and stmts:
+        asg = ast.Assign(targets=[copy.deepcopy(t) for t in target], value=ast.Constant(value=None), type_comment=None)
+        out.append(ast.copy_location(asg, stmts[-1]))
+    return out
+
+
+def _falls_through(block) -> bool:
+    """can control reach the end of this statement list? (syntactic: last statement is not a return/raise/continue/break,
+    nor an if whose arms all end that way)"""
+    if not block:
+        return True
+    last = block[-1]
+    if isinstance(last, (ast.Return, ast.Raise, ast.Continue, ast.Break)):
+        return False
+    if isinstance(last, ast.If) and last.orelse:
+        return _falls_through(last.body) or _falls_through(last.orelse)
+    return True
 
 
 class _Subst(ast.NodeTransformer):
@@ -202,7 +259,7 @@ def _first_use_is_load(stmts, name, after_line=None):
     return occ[0][2]
 
 
-def _inline_call(call, h, is_method, F, stmt, enclosing_loops, tag):
+def _inline_call(call, h, is_method, F, stmt, enclosing_loops, tag, target=None):
     """(statements replacing `stmt`, result expression | None) or None when the call cannot be mapped exactly"""
     import copy
 
@@ -266,9 +323,9 @@ def _inline_call(call, h, is_method, F, stmt, enclosing_loops, tag):
     sub = _Subst(mapping)
     new_body = [sub.visit(st) for st in body]
     result = None
-    if new_body and isinstance(new_body[-1], ast.Return):
-        r = new_body.pop()
-        result = r.value
+    new_body = _tailify(new_body, target)
+    if new_body is None:
+        return None
     out = pre + new_body
     for st in out:
         ast.fix_missing_locations(st)
@@ -332,15 +389,9 @@ def inline_new_helpers(module, reference_names: set) -> list:
                 h, is_method = resolve(call, fi)
                 if h is not None and h is not fi and reasons.get(h.qualname) is None and (not h.is_async or isinstance(st.value, ast.Await)) and (h.is_async or not isinstance(st.value, ast.Await)):
                     counter[0] += 1
-                    got = _inline_call(call, h.node, is_method, fi.node, st, loops, f'{h.name.strip("_")}{counter[0]}')
+                    got = _inline_call(call, h.node, is_method, fi.node, st, loops, f'{h.name.strip("_")}{counter[0]}', target=st.targets if form == 'assign' else None)
                     if got is not None:
                         stmts, result = got
-                        if form == 'assign':
-                            val = result if result is not None else ast.Constant(value=None)
-                            asg = ast.Assign(targets=st.targets, value=val, type_comment=None)
-                            stmts = stmts + [ast.fix_missing_locations(ast.copy_location(asg, st))]
-                        elif result is not None and not isinstance(result, (ast.Name, ast.Constant)):
-                            stmts = stmts + [ast.fix_missing_locations(ast.copy_location(ast.Expr(value=result), st))]
                         if not stmts:
                             stmts = [ast.copy_location(ast.Pass(), st)]
                         block[i:i + 1] = stmts
